@@ -172,6 +172,18 @@ def run(run):
     from wikitextprocessor.parserfns import PARSER_FUNCTIONS
     names = sorted(PARSER_FUNCTIONS)
     calls = PF_CORPUS + pf_texts(rng, names, 2 if quick else 12) + expr_texts(rng, 600 if quick else 20000)
+    # several calls on one page (failures of one call must not disturb the next): unknown functions, bad arguments and good
+    # calls side by side, also inside a template argument and repeated
+    single = [t for _, t in calls if len(t) < 200]
+    odd = ["{{#nosuchfn:x}}", "{{#nosuchfn2|y}}", "{{#unknown}}", "{{#nosuchfn:a|k=v}}", "{{#expr:1+}}", "{{#if:x|y}}", "{{lc:A}}",
+           "{{#time:}}", "{{#switch:}}", "{{#titleparts:}}", "{{#invoke:}}", "{{#tag:}}", "{{#rel2abs:}}"]
+    for _ in range(150 if quick else 3000):
+        k = rng.randint(2, 5)
+        parts = [rng.choice(odd) if rng.random() < 0.6 else rng.choice(single) for _ in range(k)]
+        text = rng.choice([" ", "", "\n"]).join(parts)
+        if rng.random() < 0.2:
+            text = "{{#if:x|%s}}" % text
+        calls.append(("several", text))
     by_title = {}
     for i, (fn, t) in enumerate(calls):
         by_title.setdefault(TITLES[i % len(TITLES)], []).append((fn, t))
